@@ -403,7 +403,7 @@ func (e *csEnv) runBlock(pending []chain.M, dtNext int64, w *chain.TraceWriter) 
 			// member of a multi-message transaction that failed as a whole (chain.BundlePct):
 			// whatever it did was rolled back; the specification knows no such event and
 			// treats it as a rejection without effect
-			ev["name"] = "TxFailed"
+			ev["_orig"], ev["name"] = ev["name"], "TxFailed"
 		}
 		e.fillResp(ev, r)
 		if r.Aborted {
